@@ -114,14 +114,16 @@ def predict(cases, rundir, label, chunk=60):
 def bundle_sources(cases):
     """the Go module of a bundle: {relative path: source}. Cases generated with a package split put the functions marked
     `lib` into package gmb/lib (exported names); main imports it."""
-    funcs, structs, embedded, ifaces = [], {}, {}, {}
+    funcs, structs, embedded, ifaces, raw = [], {}, {}, {}, []
     for cid, case in cases:
         funcs += case["funcs"]
         structs.update(case["structs"])
         embedded.update(case["embedded"])
         ifaces.update(case["ifaces"])
+        raw += case.get("rawdecls", [])
     lib_names = {f["name"] for f in funcs if f.get("lib")}
-    prog = {"funcs": funcs, "structs": structs, "embedded": embedded, "ifaces": ifaces, "methods": {}, "lib_names": lib_names}
+    prog = {"funcs": funcs, "structs": structs, "embedded": embedded, "ifaces": ifaces, "methods": {}, "lib_names": lib_names,
+            "rawdecls": raw}
     files = {}
     main_imports = ("os", "runtime", "sync") + (("gmb/lib",) if lib_names else ())
     src = G.render(prog, imports=main_imports, only_lib=False if lib_names else None)
@@ -253,7 +255,7 @@ def run_cases(chk, prop, profile, ncases, per_bundle, configs, sd, label, split_
                     chk.reject("%s:%s:%s:died" % (prop, profile, kname),
                                "llgo-compiled case killed or hung the process (%s): %s" % (died[cid][0], died[cid][1][-300:]),
                                {"case": cid, "seed": sd, "profile": profile, "config": opt + tags, "features": case["features"],
-                                "expected": want, "source": G.render({"funcs": case["funcs"], "structs": case["structs"],
+                                "expected": want, "source": G.render({"funcs": case["funcs"], "structs": case["structs"], "rawdecls": case.get("rawdecls", []),
                                                                       "embedded": case["embedded"], "ifaces": case["ifaces"]})})
                 elif got.get(cid) != want:
                     chk.reject("%s:%s:%s" % (prop, profile, kname),
@@ -261,7 +263,7 @@ def run_cases(chk, prop, profile, ncases, per_bundle, configs, sd, label, split_
                                "got %s want %s [features %s, config %s]" % (got.get(cid), want, case["features"], opt + tags),
                                {"case": cid, "seed": sd, "profile": profile, "config": opt + tags, "features": case["features"],
                                 "expected": want, "got": got.get(cid),
-                                "source": G.render({"funcs": case["funcs"], "structs": case["structs"],
+                                "source": G.render({"funcs": case["funcs"], "structs": case["structs"], "rawdecls": case.get("rawdecls", []),
                                                     "embedded": case["embedded"], "ifaces": case["ifaces"]})})
     if len(dropped) > 0.1 * len(cases):
         raise C.Undecided("GoMachine disagrees with the reference toolchain on %d of %d cases (spec or generator defect), e.g. %s"
